@@ -449,7 +449,7 @@ func (d *driver) saturationTrace(surface string, rounds int) {
 func (r *runner) drive(rec *kit.Recorder) {
 	d := &driver{r: r, rec: rec, rng: r.env.Rand()}
 	c08 := r.env.Property == "C08"
-	traces := r.env.Pick(40, 600)
+	traces := r.env.Pick(40, 300)
 	for tr := 0; tr < traces; tr++ {
 		d.randomTrace(tr, c08)
 	}
